@@ -60,6 +60,10 @@ def lattice_sets():
             out['axis%d%s' % (i, 'p' if s > 0 else 'm')] = v
     out['zero'] = [0.0] * 7
     out['small'] = [0.001, -0.002, 0.003, 1e-4, 1e-5, -2e-5, 3e-5]
+    # parameters in other legal numeric forms: Python ints, numpy 64-bit integers and floats (32-bit numpy scalars are NOT
+    # used: numpy's own promotion rules then compute in single precision, which is not the library's doing)
+    out['ints'] = [100, -50, 25, 3, 1, -2, 3]
+    out['npforms'] = [np.int64(7), np.float64(-2.5), np.int64(4), np.float64(1.5), np.float64(0.5), np.int64(-1), np.float64(0.25)]
     return out
 
 
@@ -76,6 +80,30 @@ def get_trans(spec):
 
 def par_of(t):
     return {f: om.dec_str(getattr(t, f)) for f in FIELDS}
+
+
+# parameters of the shipped sets as they are at import time, before any library call (forked workers inherit them): the
+# oracle never re-reads a live object that a call may have modified
+PRISTINE = {n: {f: om.dec_str(getattr(v, f)) for f in FIELDS + ['d_' + f for f in FIELDS]} for n, v in catalogue().items()}
+
+
+def pristine_par(spec, t):
+    kind, name = spec
+    if kind == 'const':
+        return {f: PRISTINE[name][f] for f in FIELDS}
+    if kind == 'neg':
+        return {f: -PRISTINE[name][f] for f in FIELDS}
+    return par_of(t)
+
+
+def unchanged(rec, spec, one, co):
+    """the shipped constant still carries its import-time parameters"""
+    if spec[0] in ('const', 'neg'):
+        v = catalogue()[spec[1]]
+        now = {f: om.dec_str(getattr(v, f)) for f in FIELDS + ['d_' + f for f in FIELDS]}
+        if now != PRISTINE[spec[1]]:
+            rec.fail('a shipped parameter set was modified by the call', site='transform:constant-modified', observed={k: float(x) for k, x in now.items()},
+                     case=one, coords=co)
 
 
 def points(tier, seed):
@@ -117,7 +145,7 @@ def gen_formula(tier, seed):
 
 def ev_formula(case, rec):
     t = get_trans(case['trans'])
-    par = par_of(t)
+    par = pristine_par(case['trans'], t)
     shipped = case['trans'][0] in ('const', 'neg')
     agd = shipped and 'agd' in case['trans'][1]
     with mp.workdps(30):
@@ -175,6 +203,7 @@ def ev_formula(case, rec):
                 rec.fail('shipped set and its negation do not close within the stated limit', site='transform:conform7:roundtrip-limit',
                          observed=berr, tol=lim, case=one, coords=dict(co, err=berr))
         rec.outcome('bad' if bad else 'ok')
+    unchanged(rec, case['trans'], dict(case, pts=case['pts'][:1]), {'trans': case['trans'][1]})
     rec.sample({'trans': case['trans'], 'pt': case['pts'][0]})
 
 
@@ -235,9 +264,10 @@ def ev_cov(case, rec):
         t = gc.Transformation(t.from_datum, t.to_datum, t.ref_epoch, t.tx, t.ty, t.tz, t.sc, t.rx, t.ry, t.rz,
                               tf_sd=gc.TransformationSD(sd_tx=sdv[0], sd_ty=sdv[1], sd_tz=sdv[2], sd_sc=sdv[3],
                                                         sd_rx=sdv[4], sd_ry=sdv[5], sd_rz=sdv[6]))
-    par = par_of(t)
+    par = pristine_par(case['trans'], t)
     pt = case['pt']
     has_sd = type(t.tf_sd) is gc.TransformationSD
+    held = []          # results of earlier calls: they belong to the caller and must stay what they were
     for m in case['mats']:
         one = dict(case, mats=[m])
         vcv = np.array(m, dtype=float)
@@ -264,6 +294,15 @@ def ev_cov(case, rec):
                      site='transform:conform7:vcv-missing', observed=out, case=one, coords=co)
             continue
         rec.state(('vcv', case['trans'][1], out.tobytes().hex()[:64]))
+        if np.shares_memory(out, vcv):
+            rec.fail('the returned covariance shares memory with the input covariance', site='transform:conform7:vcv-alias', observed=out,
+                     case=one, coords=co)
+        for (po, pb) in held[-3:]:
+            if po.tobytes() != pb or po is out:
+                rec.fail('a covariance returned by an earlier call was overwritten by a later call (results share a work array)',
+                         site='transform:conform7:vcv-result-overwritten', observed=po, case=one, coords=co)
+                break
+        held.append((out, out.tobytes()))
         sd = {k: om.dec_str(getattr(t.tf_sd, k)) for k in ('sd_tx', 'sd_ty', 'sd_tz', 'sd_sc', 'sd_rx', 'sd_ry', 'sd_rz')}
         exp = om.helmert_cov_mp(pt, par, m, sd)
         expf = np.array([[float(exp[i, j]) for j in range(3)] for i in range(3)])
